@@ -175,13 +175,16 @@ P("C28", [("V5", None), ("K12", r"_ans"), ("V1", None), ("K8", r"laws"), ("V8", 
   "Not reached: arity/kind agreement of the substitution with the query's binders (established inside resolution and canonicalisation), Fulfill::solve.",
   "contract-based verification: Verus on extracted text + Kani harness contracts")
 
-P("C12", [("V22", None)],
+P("C12", [("V22", None), ("V26", None)],
   "proof",
   "Partial (the SLG recovery mechanism named in the anchors): Verus proves on the verbatim text of <SolveState as Drop>::drop, SolveState::unwind_stack and the Stack methods they use that, "
   "whatever the stack looks like when the solve state is dropped, afterwards the stack is empty and every strand the stack held - the top entry's active strand included - is back at the end of the "
-  "queue of ITS OWN table, in stack order, each exactly once, and nothing else of any table changed; unwind_stack terminates. Unbounded, for every stack height and table assignment.",
+  "queue of ITS OWN table, in stack order, each exactly once, and nothing else of any table changed; unwind_stack terminates. For the recursive solver it proves on the verbatim text of "
+  "RecursiveContext::solve_root_goal (the engine's only entry point) that from ANY state an abandoned solve may have left behind it neither panics nor solves on top of the leftovers: solve_goal is entered with an empty "
+  "stack and an empty search graph, the cache kept (V26) - this contract was REFUTED on the pinned tree (genuine defect, repaired by /repo commit 3e7a847, see known_findings.json). "
+  "Unbounded, for every stack height and table assignment.",
   "Not reached: that the forest with all strands re-queued answers like a fresh one (a statement about the whole state machine), strands held in local variables of the state machine at the moment of the "
-  "panic (StackEntry's FIXME), 'tables are inserted only after build_table returns', the recursive solver's side (solve_root_goal's empty-stack assertion; K11 covers its Stack). Assumed: Rust drops the "
+  "panic (StackEntry's FIXME), 'tables are inserted only after build_table returns', that a panic leaves the recursive engine's CACHE consistent (it only ever receives completed SCCs, V24). Assumed: Rust drops the "
   "SolveState on unwinding; the stack invariant 'every entry below the top holds its suspended strand'.",
   "contract-based deductive verification: Verus on mechanically extracted function text, in-place loop invariant with termination measure, proved sequence lemmas")
 
